@@ -163,8 +163,8 @@ def _suitable(needs, a, undirected, connected):
         return undirected and connected and n >= 4
     if needs == 'simple-top-singular':
         # the leading singular vectors are defined only when the top singular value is simple
-        if n < 3:
-            return False
+        if n < 3 or not (undirected and connected):
+            return False      # on several components the leading pair lives on one of them and ARPACK's choice is numerical
         sv = np.linalg.svd(a.toarray(), compute_uv=False)
         return sv[0] > 0 and (sv[0] - sv[1]) > 1e-2 * sv[0]
     return True
